@@ -164,8 +164,8 @@ Section Build.
       end) ;;
     ret index.
 
-  (* Table::Build after Create(estimated_file_size) *)
-  Definition m_table_build (rederive : bool) (num_syllables : nat) (v : voc1) (image_size : N) : M unit :=
+  (* Table::Build after Create(estimated_file_size), up to `metadata_->index = index_` *)
+  Definition m_build_prefix (num_syllables : nat) (v : voc1) : M ptr :=
     meta <- allocate (al_metadata L) (sz_metadata L) ;;
     touch meta ;;                                              (* checksum, num_syllables, num_entries *)
     syl <- create_array (sz_arr_stringtype L) (sz_stringtype L) num_syllables ;;
@@ -173,11 +173,18 @@ Section Build.
     touch meta ;;                                              (* metadata_->syllabary = syllabary_ *)
     idx <- m_build_head num_syllables v ;;
     touch meta ;;                                              (* metadata_->index = index_ *)
+    ret meta.
+
+  (* OnBuildFinish and the format tag *)
+  Definition m_build_finish (rederive : bool) (meta : ptr) (image_size : N) : M unit :=
     patch_refs ;;                                              (* string_table_builder_->Build() *)
     img <- allocate (al_char L) image_size ;;
     touch img ;;                                               (* Dump(image, image_size) *)
     (fun s => (touch (if rederive then (epoch s, 0) else meta)) s) ;;  (* metadata_->string_table{,_size} = ... *)
     (fun s => (touch (if rederive then (epoch s, 0) else meta)) s).    (* strncpy(metadata_->format, ...) *)
+
+  Definition m_table_build (rederive : bool) (num_syllables : nat) (v : voc1) (image_size : N) : M unit :=
+    meta <- m_build_prefix num_syllables v ;; m_build_finish rederive meta image_size.
 
   (** ** Exact sizes *)
 
